@@ -413,17 +413,15 @@ func (r *Reader) Read(position int64) (msg Message, nextPosition int64, err erro
 func (r *Reader) readV1(position int64, msg *Message) (nextPosition int64, err error) {
 	// Read header
 	var headerBytes [v1HeaderSize]byte
-	var n int
 	if r.ra != nil {
-		n, err = r.ra.ReadAt(headerBytes[:], position)
+		_, err = r.ra.ReadAt(headerBytes[:], position)
 	} else {
-		n, err = r.r.ReadAt(headerBytes[:], position)
+		_, err = r.r.ReadAt(headerBytes[:], position)
 	}
 	switch {
 	case err == nil:
 		// all good, continue
-	case errors.Is(err, io.ErrUnexpectedEOF), errors.Is(err, io.EOF) && n > 0:
-		// ReadAt reports a partial header as io.EOF, only n == 0 is the end of the data
+	case errors.Is(err, io.ErrUnexpectedEOF):
 		return -1, errShortHeader
 	default:
 		return -1, fmt.Errorf("read header: %w", err)
@@ -484,17 +482,15 @@ func (r *Reader) readV1(position int64, msg *Message) (nextPosition int64, err e
 func (r *Reader) readV2(position int64, msg *Message) (nextPosition int64, err error) {
 	// Read header
 	var headerBytes [v2HeaderSize]byte
-	var n int
 	if r.ra != nil {
-		n, err = r.ra.ReadAt(headerBytes[:], position)
+		_, err = r.ra.ReadAt(headerBytes[:], position)
 	} else {
-		n, err = r.r.ReadAt(headerBytes[:], position)
+		_, err = r.r.ReadAt(headerBytes[:], position)
 	}
 	switch {
 	case err == nil:
 		// all good, continue
-	case errors.Is(err, io.ErrUnexpectedEOF), errors.Is(err, io.EOF) && n > 0:
-		// ReadAt reports a partial header as io.EOF, only n == 0 is the end of the data
+	case errors.Is(err, io.ErrUnexpectedEOF):
 		return -1, errShortHeader
 	default:
 		return -1, fmt.Errorf("read header: %w", err)
